@@ -39,7 +39,7 @@ ASSUMPTIONS = [
 ]
 REQUIRED = {"requests": 300, "plugins_ran_checked": 300, "loads_checked": 100, "saves_checked": 100,
             "expected_errors": 30, "components_checked": 100, "multi_sibling_cases": 10, "two_frontend_cases": 50,
-            "multi_partial_cases": 30, "forbid_as_string_cases": 15, "pre_call_cases": 30}
+            "multi_partial_cases": 30, "forbid_as_string_cases": 15, "pre_call_cases": 30, "inlined_saver_frontends": 6}
 UNIT_TIMEOUT = 1200
 ORDER = {"NEVER": 0, "EXPLICIT": 1, "TARGET": 2, "ALWAYS": 3}
 
@@ -459,14 +459,77 @@ def run_case(case):
     return viol, cnt, nontrivial, []
 
 
+def run_mp_frontends(nfe):
+    """Multiprocessing with inlined savers and several writable frontends: every ALWAYS-saved type of the inlined
+    chain must end up in EVERY frontend that takes it, complete and loadable, no temporary directories left."""
+    import multiprocessing as _mp
+
+    from vf.harness import mp_plugins as mp
+
+    if _mp.get_start_method(allow_none=True) != "forkserver":
+        _mp.set_start_method("forkserver", force=True)
+        _mp.set_forkserver_preload(["strax", "vf.harness.mp_plugins"])
+    rows = ((0, 500, 1), (800, 1200, 2), (3000, 3500, 3), (3600, 4000, 4), (6000, 6400, 5), (9000, 9300, 6))
+    cuts = (0, 2000, 5000, 10000)
+    out = mp.whole_run(list(rows))
+    root = hrun.mktemp("c11mp-")
+    dirs = [os.path.join(root, f"fe{i}") for i in range(nfe)]
+    viol = []
+    try:
+        st = strax.Context(storage=[strax.DataDirectory(d) for d in dirs], register=mp.ALL_INLINE,
+                           config=dict(mp_rows=rows, mp_cuts=cuts), allow_multiprocess=True, allow_lazy=False,
+                           max_messages=10, timeout=60, processors=["threaded_mailbox"])
+        with common.quiet():
+            st.make("0", "mptop", progress_bar=False, max_workers=2)
+        for i, d in enumerate(dirs):
+            left = [x for x in os.listdir(d) if x.endswith("_temp")] if os.path.isdir(d) else ["<frontend directory missing>"]
+            if left:
+                viol.append(("saves", f"frontend {i} of {nfe}: unfinished data left behind after a successful make: {left}"))
+            one = strax.Context(storage=[strax.DataDirectory(d)], register=mp.ALL_INLINE, config=dict(mp_rows=rows, mp_cuts=cuts),
+                                processors=["single_thread"], forbid_creation_of=("*",))
+            for dt in ("mpsrc", "mprow", "mpma", "mpmb", "mptop"):
+                if not one.is_stored("0", dt):
+                    viol.append(("saves", f"frontend {i} of {nfe} (inlined savers): {dt} is saved by default but is not stored there"))
+                    continue
+                with common.quiet():
+                    got = one.get_array("0", dt, progress_bar=False)
+                if not oracle.rows_equal(got, out[dt]):
+                    viol.append(("rows", f"frontend {i} of {nfe}: stored {dt} = {got.tolist()} != {out[dt].tolist()}"))
+    except Exception as e:  # noqa: BLE001
+        if "Timeout" not in type(e).__name__:
+            viol.append(("exception", f"make with inlined savers and {nfe} frontends failed: {e!r}"))
+    finally:
+        hrun.rm(root)
+    return viol
+
+
 def units(tier, seed):
     q = tier == "quick"
     n = 16 if q else 64
     per = 40 if q else 300
-    return [{"name": f"plans-{k}", "seed": seed, "lo": k * per, "hi": (k + 1) * per} for k in range(n)]
+    us = [{"name": f"plans-{k}", "seed": seed, "lo": k * per, "hi": (k + 1) * per} for k in range(n)]
+    us.append({"name": "mpfrontends", "fam": "mpfe", "seed": seed, "reps": 1 if q else 4})
+    return us
 
 
 def run_unit(u):
+    if u.get("fam") == "mpfe":
+        res = {"evaluations": 0, "hashes": [], "counters": {}, "samples": [], "violations": [], "inconclusive": []}
+        for rep in range(u["reps"]):
+            for nfe in (1, 2, 3):
+                viol = run_mp_frontends(nfe)
+                res["evaluations"] += 1
+                res["hashes"].append(common.chash(["mpfe", nfe, rep]))
+                res["counters"]["inlined_saver_frontends"] = res["counters"].get("inlined_saver_frontends", 0) + nfe
+                for kind, text in viol[:3]:
+                    res["violations"].append({"sig": {"kind": kind, "modifier": "none", "multi_target": False, "stratum": "mp_inlined"},
+                                              "what": f"{kind}: {text}"[:600], "case": {"mp_frontends": nfe}})
+        res["samples"].append({"mp_inlined_savers": "1..3 writable frontends"})
+        return res
+    return _run_unit(u)
+
+
+def _run_unit(u):
     cl.install(strax)
     fsaudit.install()
     res = {"evaluations": 0, "hashes": [], "counters": {}, "samples": [], "violations": [], "inconclusive": []}
@@ -496,6 +559,12 @@ def run_unit(u):
 
 
 def replay(case):
+    if "mp_frontends" in case:
+        return [{"sig": {"kind": k}, "what": t, "case": case} for k, t in run_mp_frontends(case["mp_frontends"])]
+    return _replay(case)
+
+
+def _replay(case):
     cl.install(strax)
     fsaudit.install()
     viol, cnt, nt, inc = run_case(case)
